@@ -43,6 +43,8 @@ type zvConn struct {
 	// writePoint makes every Write a (never blocking) scheduler operation: other threads may run between the caller's
 	// previous synchronisation operation and the moment the bytes are on the wire
 	writePoint bool
+	// onWrite, when set, sees every Write at its entry (before a stalled Write blocks)
+	onWrite func(p []byte)
 }
 
 // zvConnWritePoint is the always-enabled operation of a connection with writePoint set.
@@ -102,6 +104,9 @@ func (c *zvConn) OpEnabled(int) bool {
 func (c *zvConn) OpApply(int) {}
 
 func (c *zvConn) Write(p []byte) (int, error) {
+	if c.onWrite != nil {
+		c.onWrite(p)
+	}
 	if c.stalled() {
 		vsched.DoObj(vsched.KIO, fmt.Sprintf("conn%d.Write(stalled)", c.id), zvConnWriter{c})
 	} else if c.writePoint {
